@@ -35,6 +35,7 @@ fn query<F: Fl>(w: &CWorld<F>, q: &Value, rng_rej: &HashSet<Triple>) -> Value {
                 transpose: q["transpose"].as_bool().unwrap(),
                 meth: match q["meth"].as_str().unwrap() { "plain" => Meth::Plain, "for_each" => Meth::ForEach, _ => Meth::Filter },
                 repeat: false,
+                late: q["closure_first"].as_bool().unwrap_or(false),
             };
             let o = run_query(&world, q["root"].as_u64().unwrap() as K, &query, rng_rej);
             json!({"res": o.res, "rt": res_tag(&o.res), "examined": o.examined})
@@ -186,7 +187,8 @@ fn record_pair<A: Fl, B: Fl>(opts: &HashMap<String, String>) -> Value {
                         for u in 1..=nk as K { for v in 1..=nk as K { rej.insert((u, v, thr)); } }
                     }
                     q = json!({"q": "search", "kind": kind.name(), "entry": entry.name(), "root": root, "target": target,
-                               "transpose": A::DIRECTED && rng.gen_bool(0.4), "meth": meth, "rejects_value": rej.iter().next().map(|t| t.2).unwrap_or(0)});
+                               "transpose": A::DIRECTED && rng.gen_bool(0.4), "meth": meth, "closure_first": rng.gen_bool(0.5),
+                               "rejects_value": rej.iter().next().map(|t| t.2).unwrap_or(0)});
                 } else if kq == "edge_eq" {
                     q["a"] = json!(rng.gen_range(1..=nk));
                 } else if kq == "cmp" {
